@@ -240,6 +240,10 @@ def ext_cases(seed, tier, consts, pid):
                 add('gets_s', [('R', fam_copy.garbage(rng, dmax)), ('R', text)], [(0, 0), dmax, UNK, (1, 0)],
                     gd(0, 0, dmax, 1, producer=True, slack=True, fail='null', copylike=True,
                        ref=(None if (L == 0 and not nl) else (('ok', list(line) + [0], 'P0:0') if L < dmax else ('fail',)))), L=L, nl=bool(nl), noop=False)
+    # line input when the read fails (error, not end-of-file) before any character arrives: dest must come back terminated
+    for dm in (1, 2, 5, 40):
+        add('gets_s_err', [('R', fam_copy.garbage(rng, dm))], [(0, 0), dm, UNK],
+            gd(0, 0, dm, 1, producer=True, slack=False, fail='null', copylike=True, ref=None), L=0, nl=False, noop=False, readerr=True)
     # NULL / zero / oversize arguments
     d8 = fam_copy.garbage(rng, 8)
     for f, args, g in (
